@@ -28,6 +28,7 @@ def run(chk):
     r04h(chk, thorough=chk.tier == 'thorough')
     r04i(chk, thorough=chk.tier == 'thorough')
     r04j(chk, thorough=chk.tier == 'thorough')
+    r04k(chk)
 
 
 def _skip_calls(fn):
@@ -785,3 +786,102 @@ def _damage_runs(n, depth=2):
                                 cur.append((o,) + inner + (c,) + rest)
             _RUNS[key] = cur
     return _RUNS[key]
+
+
+PAGE = 'cssutils/css/csspagerule.py'
+
+
+def r04k(chk, rid='R04.k'):
+    chk.rule(rid, 'containment inside @page, decided by evaluation: CSSPageRule._setCssText and the splitter of margin boxes and declarations it calls (both on their syntax trees; MarginRule and CSSStyleDeclaration are models that take the tokens they are handed) are evaluated for a block made of a good margin box, a margin box that is ill-formed, and a declaration: the page rule commits its selector, the declaration and the good margin box - an ill-formed margin box costs only itself')
+    chk.assume('R04.k: a margin box model consumes its tokens up to its closing brace and is ill-formed when it meets the marker token; the page selector parses as well-formed; the block is closed by "}"')
+    import itertools
+
+    from sa.absint import Evaluator, Obj, Raised, Record
+
+    m = chk.repo.mod(PAGE)
+    fn = m.get('CSSPageRule._setCssText')
+    log = Record(error=lambda *a, **k: None, warn=lambda *a, **k: None, info=lambda *a, **k: None, debug=lambda *a, **k: None)
+
+    def t(typ, v):
+        return (typ, v, 1, 1)
+
+    for label, order in (('behind the good one', ('good', 'bad')), ('in front of the good one', ('bad', 'good'))):
+        boxes = {'good': [t('ATKEYWORD', '@top-left'), t('CHAR', '{'), t('IDENT', 'x'), t('CHAR', '}')],
+                 'bad': [t('ATKEYWORD', '@Top-Center'), t('IDENT', 'BAD'), t('CHAR', '{'), t('CHAR', '}')]}
+        decl = [t('IDENT', 'margin'), t('CHAR', ':'), t('NUMBER', '1')]
+        styletokens = boxes[order[0]] + boxes[order[1]] + decl
+        made = []
+
+        class Margin(Obj):
+            margins = ('@top-left', '@top-center', '@bottom-left')
+
+            def __init__(self, *a, **k):
+                Obj.__init__(self, args=k, margin=None, ok=True, style=[])
+                made.append(self)
+
+            @property
+            def wellformed(self):
+                return self.ok
+
+            @property
+            def cssText(self):
+                return None
+
+            @cssText.setter
+            def cssText(self, toks):
+                first = True
+                for tok in toks:
+                    if first:
+                        object.__setattr__(self, 'margin', tok[1].lower())
+                        first = False
+                    if tok[1] == 'BAD':
+                        object.__setattr__(self, 'ok', False)
+                    if tok[1] == '}':
+                        break
+
+        class Style(Obj):
+            def __init__(self, *a, **k):
+                Obj.__init__(self, tokens=None)
+
+            @property
+            def cssText(self):
+                return self.tokens
+
+            @cssText.setter
+            def cssText(self, v):
+                object.__setattr__(self, 'tokens', list(v))
+
+        class Me(Obj):
+            @property
+            def cssRules(self):
+                return self._cssRules
+
+            @cssRules.setter
+            def cssRules(self, v):
+                object.__setattr__(self, '_cssRules', v)
+
+        firsts = iter([t('PAGE_SYM', '@page'), None])
+
+        def upto(tokenizer=None, starttoken=None, **k):
+            if k.get('blockstartonly'):
+                return [t('S', ' ')], t('CHAR', '{')
+            if k.get('blockendonly'):
+                return list(styletokens), t('CHAR', '}')
+            raise AnalysisError(f'CSSPageRule._setCssText: unexpected _tokensupto2({k})')
+
+        me = Me(_cssRules=['old'], style='OLDSTYLE', _selectorText='OLDSEL', _specificity=None, parentStyleSheet=None, _parentStyleSheet=None,
+                _tokenize2=lambda x: iter(()), _nexttoken=lambda *a, **k: next(firsts), _type=lambda tok: tok[0] if tok else None,
+                _tokenvalue=lambda tok, normalize=False: tok[1] if tok else None, _valuestr=lambda x: 'text', _normalize=lambda s: s.lower(),
+                _prods=Record(PAGE_SYM='PAGE_SYM'), _log=log, _tokensupto2=upto)
+        setattr(me, '__parseSelectorText', lambda toks: (True, 'NEWSEL', (0, 0, 0)))
+        intr = {'super': lambda *a: Record(_setCssText=lambda x: None), 'CSSStyleDeclaration': Style, 'MarginRule': Margin, 'chain': itertools.chain,
+                'cssutils': Record(css=Record(CSSRuleList=lambda *a: [])), 'self._log.error': log.error,
+                'xml': Record(dom=Record(InvalidModificationErr='InvalidModificationErr'))}
+        res = Evaluator(fn, intrinsics=intr, module=m, cls='CSSPageRule', model_types=(Margin, Style)).run(self=me, cssText='text')
+        if isinstance(res, Raised) or len(made) != 2:
+            raise AnalysisError(f'CSSPageRule._setCssText: evaluation ends in {res!r} with {len(made)} margin boxes')
+        kept = [getattr(r, 'margin', r) for r in me._cssRules]
+        style_ok = isinstance(me.style, Style) and me.style.tokens == decl
+        ok = me._selectorText == 'NEWSEL' and style_ok and '@top-left' in kept and 'old' not in kept
+        chk.ob(rid, PAGE, 'CSSPageRule._setCssText', f'an ill-formed margin box {label} costs only itself', ok,
+               f'selector {me._selectorText!r}, declarations {getattr(me.style, "tokens", me.style)!r}, margin boxes {kept}: the whole @page rule is thrown away (or keeps its old content) because of one bad margin box')
